@@ -1,18 +1,16 @@
 """C17 - Generation is deterministic: same state and proxy give byte-identical xDS.  (PARTIAL)
 
-Proof: lean/IstioModel/C17/Sort.lean + Theorems.lean - sort_canonical (every Go sort routine returns the
-same list for every permutation of an input whose distinct members are comparable), cmp_total_<name> for
-every comparator of the anchored code (or a witness of a tie), fold_perm_<name> for every modelled fold
-over a Go map, allEqualB_iff for the monitor.
-Tie: T-diff stream `cmp` - the real SortServicesByCreationTime, sortConfigByCreationTime,
-sortConfigBySelectorAndCreationTime, EndpointShards.Keys + EndpointBuilder (locality grouping),
-sets.SortedList, Connection.watchedResourcesByOrder, route.TranslateRouteMatch, pickBestVisibleNamespace,
-endpointSliceCache, SortWorkloadsByCreationTime vs the Lean models, line by line.
-Exploration (not proof): stream `perm` - the permutation harness on REAL generation: every mesh is built K
-times on a FakeDiscoveryServer with permuted insertion order (partly before, partly after start), generated
-R times from rebuilt PushContexts (from scratch, every third one incrementally from its predecessor) with the XDS cache cleared, in two separate processes; every resource of
-CDS/EDS/LDS/RDS/ECDS/NDS for three proxies is hashed; the Lean-verified monitor `allEqualB` and Go's own
-comparison both judge every observation line (stream `mon`).
+Proof: lean/IstioModel/C17/Theorems.lean (the only counted module) - sort_canonical (every Go sort routine returns the same
+list for every permutation of an input whose distinct members are comparable), cmp_total_<name> for every modelled comparator
+(or a witness of a tie), fold_perm_<name> for every modelled fold over a Go map, Deterministic <pipeline> for five small models
+of real generation pipelines (Pipeline.lean).
+Tie: T-diff stream `cmp` - 20 op kinds running the real comparator / fold / pipeline functions (hooks zz_verif_c17.go, a list
+registry, an in-memory store, the memory registry of a FakeDiscoveryServer) vs the Lean models, line by line.
+Exploration (not proof): stream `perm` - the permutation harness on REAL generation: every mesh is built K times on a
+FakeDiscoveryServer with permuted insertion order, generated R times from rebuilt (also incrementally derived) PushContexts with
+rotating proxy order, in two separate processes; every resource of CDS/EDS/LDS/RDS/ECDS/NDS, delta CDS, removed names of delta
+pushes and route cache keys is hashed, and so is the control plane's own state per build; Go's comparison and the Lean
+`allEqualB` judge every observation line (stream `mon`); differences are confirmed across both processes.
 """
 import json
 import os
@@ -300,20 +298,28 @@ def minimise(ctx, case_ops, keys):
 
 
 def run(ctx):
-    ctx.rule = ("cmp: random lists of services / configs / DestinationRules (few distinct timestamps, names, namespaces; runs of objects "
-                "sharing a prefix of the key), shard keys, string sets, endpoint shards with localities, watched type sets, HTTPMatchRequest "
-                "maps (headers, withoutHeaders incl. JWT-claim names and names in both maps, queryParams), byNamespace maps, endpoint-slice sets; "
-                "perm: seeded meshes of 20-70 objects (Kubernetes services/pods/endpoint slices, multi-host and multi-address ServiceEntries, "
-                "WorkloadEntries, ExternalName and overlapping-selector services, VirtualServices incl. gateway-bound (http/tls/tcp) and wildcard hosts, DestinationRules, Sidecars, Gateways, "
-                "PeerAuthentication, AuthorizationPolicy, RequestAuthentication, EnvoyFilter, Telemetry, WasmPlugin, ProxyConfig; random MeshConfig variants; 1 in 12 meshes three times larger; 1-2 distinct creation "
-                "timestamps in 3 of 4 meshes; every sixth mesh in ambient mode with a waypoint) + 11 hand-written witness meshes; distinct = hash of (ops, outputs); non-trivial = at least one op / observation")
+    ctx.rule = ("cmp: 20 op kinds - random lists of services / configs / DestinationRules / workloads (few distinct timestamps, names, namespaces; runs "
+                "of objects sharing a prefix of the key), shard keys, string sets, endpoint shards with localities, watched type sets, HTTPMatchRequest "
+                "maps, byNamespace maps, endpoint-slice sets, service listings for the service index (several claimants per key, some Kubernetes), "
+                "alias sets, services sharing addresses on a sidecar route, EnvoyFilter and TrafficExtension listings (equal priorities / ages, time "
+                "representations), target-port lists, TCP services with VIPs; "
+                "perm: seeded meshes of 20-150 objects (Kubernetes services/pods/endpoint slices, Service-attached HTTPRoutes, multi-host and "
+                "multi-address ServiceEntries with shared hosts, WorkloadEntries, ExternalName and overlapping-selector services, VirtualServices incl. "
+                "gateway-bound, wildcard, root+delegate, DestinationRules, Sidecars, Gateways, PeerAuthentication with port-level maps, "
+                "AuthorizationPolicy, RequestAuthentication, EnvoyFilter, Telemetry, WasmPlugin, ProxyConfig, TrafficExtension; random MeshConfig "
+                "variants; 1-2 distinct creation timestamps in 3 of 4 meshes; every sixth mesh in ambient mode with a waypoint, every sixth with "
+                "PILOT_SIDECAR_PICK_BEST_SERVICE_NAMESPACE=false) + 15 hand-written witness meshes; distinct = hash of (ops, outputs); "
+                "non-trivial = at least one op / observation")
     ctx.assumptions = [
         "a Go sort routine called with a strict weak order returns an ordered permutation of its input (IsSort); nothing else about it is assumed",
+        "creation timestamps have second resolution and are modelled as natural numbers; Go's `!=` on time.Time also sees the representation (modelled as `zone` in P4 only)",
         "deterministic protobuf marshalling (protoconv.MessageToAny, proto.MarshalOptions{Deterministic:true}) is deterministic for equal messages within one binary",
         "strings.Compare (UTF-8 bytes) and Lean's String order (code points) agree",
-        "byte-level determinism of the generators at large is EXPLORED by the permutation harness, not proved: the theorems cover the comparators, the modelled folds and the monitor",
+        "nothing is proved about separate processes or instances: the across-process clause is explored by running the harness in two processes",
+        "byte-level determinism of the generators at large is EXPLORED by the permutation harness, not proved: the theorems cover the comparators, the modelled folds and five pipeline models",
     ]
-    ctx.trusted.append("verif-tagged accessors pilot/pkg/model/zz_verif_c17.go, pilot/pkg/xds/zz_verif_c17.go, pilot/pkg/serviceregistry/kube/controller/zz_verif_c17.go")
+    ctx.trusted.append("verif-tagged accessors zz_verif_c17.go in pilot/pkg/model, pilot/pkg/xds, pilot/pkg/serviceregistry/kube/controller, pilot/pkg/config/kube/gateway")
+    ctx.trusted.append("sha256 digests, name sorting and the state fingerprint of the permutation harness are unverified Go; the Lean monitor only compares the digests")
     ctx.trusted.append("the permutation harness observes pilot/test/xds.FakeDiscoveryServer (real stores, registries, PushContext, generators; fake Kubernetes client); "
                        "two builds are compared only after their order-insensitive state fingerprints agree")
     ctx.lean_prove(THEOREMS)
@@ -390,25 +396,33 @@ def replay(ctx, path):
 
 
 MANIFEST = {
-    "level_text": ("PARTIAL. Lean 4 proof of the two logical ingredients of deterministic generation: (1) canonical ordering - sort_canonical: for every "
-                   "function that returns an ordered permutation (any Go sort routine, stable or not) and every comparator that is a strict total order on a key, "
-                   "all permutations of an input with pairwise distinct keys give the same list; cmp_total_* instantiates it for SortServicesByCreationTime "
-                   "(as repaired), sortConfigByCreationTime, sortConfigBySelectorAndCreationTime, EndpointShards.Keys, sets.SortedList/sort.Strings, the "
-                   "listener/port key walks, with tie witnesses where a comparator is not total (services on the pinned tree, header names, configs across "
-                   "kinds, watched types outside PushOrder); (2) fold_perm_*: order-independence of the modelled folds over Go maps (TranslateRouteMatch maps, "
-                   "pickBestVisibleNamespace, endpointSliceCache.get, locality grouping, watchedResourcesByOrder) with *_witness_unfixed for the pinned tree. "
-                   "The models are tied to /repo on every run by a line-by-line differential (stream cmp). Byte-level determinism of real generation is "
-                   "EXPLORED, not proved: a permutation harness builds each mesh K times with permuted insertion order, regenerates R times from rebuilt "
-                   "PushContexts in two processes and hashes every CDS/EDS/LDS/RDS/ECDS/NDS resource of three proxies (sidecars, router; waypoint + sidecar in every sixth mesh); a Lean-verified monitor (allEqualB_iff) "
-                   "and Go judge every observation."),
-    "level_note": ("PARTIAL: proved = comparator/fold logic + monitor (coverage.obligations); explored = real generation on ~160 (quick) / ~1500 (thorough) meshes "
-                   "(coverage.streams.perm, counters perm.*; thorough verified in 17 min) - no difference observed is not a proof. Ten genuine non-determinism defects were found by the harness "
-                   "and repaired in /repo (fix: commits, see notes/C17.md; each has a witness mesh in harness/corpus/C17). Known deviation, by design of the code: "
-                   "the ORDER of resources in EDS/RDS/ECDS responses follows Go map iteration over the requested name set (fingerprint "
-                   "perm:response-order:requested-names); contents are identical. Not covered: ztunnel (WDS/WAUTH) generators, SDS, multi-cluster, mesh networks, "
-                   "Gateway API objects; event-order convergence of the registries (C15/C16) is excluded by comparing only builds whose state fingerprints agree; "
-                   "Kubernetes Nodes are always created before Pods. Trusted: Lean kernel + {propext, Classical.choice, Quot.sound}; hand-written models tied by "
-                   "differential testing; hooks zz_verif_c17.go (model, xds, kube controller); deterministic protobuf marshalling assumed."),
-    "technique": "Lean 4 theorems (sort canonicity, comparator totality, fold order-independence, verified monitor) + differential correspondence of the comparator models + permutation harness on real generation judged by the verified monitor",
+    "level_text": ("PARTIAL: lemma/pipeline proofs + exploration. PROVED (Lean 4, Theorems.lean): clause 'ties between objects of equal age are broken "
+                   "by a total, stable rule' - every modelled comparator (services as repaired, configs by creation time / by selector, Gateway API "
+                   "conversion, workloads, shard keys, strings, aliases, sortEnvoyFilters, betterVisibleService, ...) is a strict total order on a "
+                   "stated key (cmp_total_*), or a tie witness is given (header names, configs across kinds, EnvoyFilters()' `!=` on time.Time, "
+                   "sortByPriority, `<=` used as less, watched types outside PushOrder), and sort_canonical: EVERY function returning an ordered "
+                   "permutation (any Go sort routine) gives the same list for every permutation of an input with pairwise distinct keys; clause "
+                   "'regardless of the order in which objects were created or listed, of map iteration order' - for the modelled map folds "
+                   "(fold_perm_*) and for five small models of real generation pipelines (service index incl. the winner rule, shared-address "
+                   "virtual hosts, Shards -> ClusterLoadAssignment, EnvoyFilter order, TrafficExtension order): Deterministic <pipeline> over every "
+                   "permutation of the inputs; each model is tied to the real functions by an op of the differential stream `cmp` on every run. "
+                   "EXPLORED, NOT PROVED: byte-identical generation by the real generators, and 'which control-plane instance or process performs "
+                   "it' - a permutation harness builds each mesh K times with permuted insertion order (partly before, partly after start), "
+                   "regenerates R times from rebuilt (also incrementally derived) PushContexts with rotating proxy order in TWO processes, hashes "
+                   "every CDS/EDS/LDS/RDS/ECDS/NDS resource, delta CDS, removed names of delta pushes and route cache keys for sidecars, a router "
+                   "and a waypoint, and also judges the control plane's own state per build (state-order). The monitor is an equality check over "
+                   "digests computed by unverified Go."),
+    "level_note": ("PARTIAL. Proved = comparator/fold/pipeline-model logic (coverage.obligations, counted module Theorems.lean only); tied = stream cmp (20 op "
+                   "kinds on the real functions); explored = real generation on ~165 (quick) / ~1500 (thorough) meshes (coverage.streams.perm, counters "
+                   "perm.*) - no difference observed is not a proof. Fourteen genuine defects were found by the harness and repaired in /repo (fix: "
+                   "commits, notes/C17.md; each has a witness mesh in harness/corpus/C17), among them one of STATE (ambient service selection depended on "
+                   "creation order) and one of HISTORY (a gateway's scope depended on which proxies were served before). Known deviation, deliberate in "
+                   "the code: the order of resources in a response of the EDS/RDS/ECDS xDS generators follows Go map iteration over the requested name "
+                   "set (fingerprint perm:response-order:requested-names, only `.setorder` observations; RDS/ECDS order for a fixed request order IS "
+                   "judged). Not covered: ztunnel (WDS/WAUTH), SDS, proxyless, multi-cluster, mesh networks, dual stack, Gateway API Gateways; Kubernetes "
+                   "Nodes are created before Pods (Node-after-Pod is C15's known finding order:locality-built-before-node-change). Trusted: Lean kernel + "
+                   "{propext, Classical.choice, Quot.sound}; hand-written models tied by differential testing; hooks zz_verif_c17.go (model, xds, kube "
+                   "controller, kube gateway); deterministic protobuf marshalling and sha256 digests in Go assumed."),
+    "technique": "Lean 4 theorems (sort canonicity, comparator totality, fold and pipeline-model determinism over all permutations) + differential correspondence of the models with the real functions + two-process permutation harness on real generation incl. state, delta and history observations",
     "design_ref": "DESIGN.md section 5 C17",
 }
